@@ -352,6 +352,63 @@ def r207(repo, ctx):
     ctx.floor('R20.7', n, 6)
 
 
+ROW_DROPPING = {'_filter_points', 'np.unique', 'np.delete', 'np.compress', 'np.extract', 'np.random.choice', 'np.random.permutation', 'np.setdiff1d', 'np.intersect1d'}
+ROW_PRESERVING = {'np.atleast_2d', 'np.atleast_1d', 'np.log', 'np.exp', 'np.concatenate', 'np.array', 'np.asarray', 'np.sign', 'np.power', 'np.abs', 'np.squeeze', 'np.transpose',
+                  'np.hstack', 'np.column_stack', 'np.reshape', 'np.sqrt', 'np.cbrt', 'self._createInput', 'np.zeros', 'np.ones', 'len', 'range', 'np.expand_dims', 'float', 'int',
+                  'np.linalg.inv', 'np.matmul', 'np.dot', 'np.log10', 'np.broadcast_to', 'np.full'}
+
+
+def r209(repo, ctx, index):
+    """a surrogate (trained now or rebuilt from its file - both go through _fit*) interpolates its stored training data only if
+    every stored point enters the fit: the arrays handed to the kernel derive from the stored data through row-preserving
+    operations (reshape, log, column concatenation, column selection by _createInput - confirmed by reading); a call that can
+    drop or reorder rows (_filter_points, np.unique, boolean masks) between the stored data and the kernel is reported"""
+    n = 0
+    for path, q, f in repo.all_functions():
+        if path != SU or not q.split('.')[-1].startswith('_fit'):
+            continue
+        kcalls = [c for c in U.calls(f) if U.call_name(c) == 'self.kernel']
+        if not kcalls:
+            continue
+        n += 1
+        # backward slice of the kernel arguments over the local bindings (all reaching definitions of a name are included)
+        binds = {}
+        for st in ast.walk(f):
+            if isinstance(st, (ast.Assign, ast.AugAssign)):
+                for t in (U.flat_targets(st) if isinstance(st, ast.Assign) else [st.target]):
+                    if isinstance(t, ast.Name):
+                        binds.setdefault(t.id, []).append(st)
+        todo = [a for c in kcalls for a in c.args]
+        seen, exprs = set(), []
+        while todo:
+            e = todo.pop()
+            exprs.append(e)
+            for nm in U.names_in(e):
+                if nm not in seen:
+                    seen.add(nm)
+                    for st in binds.get(nm, []):
+                        todo.append(st.value)
+        dropping, unknown = [], []
+        for e in exprs:
+            for c in U.calls(e):
+                nm = U.call_name(c) or U.src(c.func)
+                if nm in ROW_DROPPING or nm.split('.')[-1] in {x.split('.')[-1] for x in ROW_DROPPING if x.startswith('_')}:
+                    dropping.append(c)
+                elif nm not in ROW_PRESERVING and not (isinstance(c.func, ast.Attribute) and c.func.attr in ('get', 'reshape', 'flatten', 'astype', 'copy', 'ravel', 'transpose')):
+                    unknown.append(c)
+            for sub in ast.walk(e):
+                if isinstance(sub, ast.Subscript) and isinstance(sub.ctx, ast.Load) and isinstance(sub.slice, (ast.Compare, ast.BoolOp)):
+                    dropping.append(sub)      # boolean mask selects rows
+        if dropping:
+            ctx.violation('R20.9', SU, q, dropping[0], f'{U.src(dropping[0])[:70]} can drop training points between the stored data and the kernel: the surrogate (and one rebuilt from its file) '
+                          'no longer interpolates every stored training point', construct=f'{q}: {U.src(dropping[0])[:60]}')
+        elif unknown:
+            ctx.undecided('R20.9', SU, q, unknown[0], f'{U.src(unknown[0])[:60]} is not in the table of row-preserving operations confirmed for the fit functions')
+        else:
+            ctx.ok('R20.9', SU, q, f, f'every array handed to the kernel derives from the stored training data through row-preserving operations ({len(exprs)} expressions in the slice)', construct=f'{q}: rows preserved')
+    ctx.floor('R20.9', n, 4)
+
+
 def check(repo, ctx, index, purity):
     ctx.explanation = EXPLANATION
     ctx.assumptions += ['exact reproduction of array contents and interpolation at training points are numeric and not decided']
@@ -361,6 +418,7 @@ def check(repo, ctx, index, purity):
     r204(repo, ctx, index)
     r206(repo, ctx)
     r207(repo, ctx)
+    r209(repo, ctx, index)
     # R20.8: the population balance of a loaded model is rebuilt on the saved grid (C08 R8.7)
     from . import C08
     sub = type(ctx)(ctx.prop, ctx.repo, ctx.tier, ctx.seed)
